@@ -447,6 +447,48 @@ def layer_package_specs(ctx):
             if got != direct or pkg != 'chameleon':
                 ctx.violation('package-relative-resolution', '%s of %s: rendered %r (package_name %r), the file itself renders %r' % (
                     vname, nm, got[:120], pkg, direct[:120]), {'kind': 'pkg', 'name': nm, 'variant': vname})
+    # mixed search paths: package-relative entries (a package on disk, and one imported from a zip archive) before / after
+    # plain directories; the first match along the path is loaded and renders, whatever kind the other entries are
+    import sys
+    import zipfile
+    mixroot = tempfile.mkdtemp(prefix='c16p_')
+    try:
+        pkgdir = os.path.join(mixroot, 'lib', 'vq_diskpkg_%d' % os.getpid())
+        os.makedirs(os.path.join(pkgdir, 'templates'))
+        open(os.path.join(pkgdir, '__init__.py'), 'w').close()
+        with open(os.path.join(pkgdir, 'templates', 'inpkg.pt'), 'w') as f:
+            f.write('<p>disk package ${v}</p>')
+        zname = 'vq_zippkg_%d' % os.getpid()
+        zpath = os.path.join(mixroot, 'bundle.zip')
+        with zipfile.ZipFile(zpath, 'w') as z:
+            z.writestr(zname + '/__init__.py', '')
+            z.writestr(zname + '/templates/inzip.pt', '<p>zip package ${v}</p>')
+        sitedir = os.path.join(mixroot, 'site')
+        os.makedirs(sitedir)
+        with open(os.path.join(sitedir, 'page.pt'), 'w') as f:
+            f.write('<p>site directory ${v}</p>')
+        sys.path[:0] = [os.path.join(mixroot, 'lib'), zpath]
+        try:
+            entries = {'disk': os.path.basename(pkgdir) + ':templates', 'zip': zname + ':templates', 'dir': sitedir}
+            wants = {'page.pt': '<p>site directory 1</p>', 'inpkg.pt': '<p>disk package 1</p>', 'inzip.pt': '<p>zip package 1</p>'}
+            import itertools
+            for order in itertools.permutations(['disk', 'zip', 'dir']):
+                for nm, want in wants.items():
+                    try:
+                        t = PageTemplateLoader([entries[k] for k in order]).load(nm)
+                        got = t(v=1)
+                        again = t(v=1)
+                    except Exception as e:
+                        got = again = 'RAISED %s %s' % (type(e).__name__, str(e)[:100])
+                    ctx.mon('loads-compared')
+                    ctx.case(key=('pkg-mixed', order, nm), nontrivial=True)
+                    if got != want or again != want:
+                        ctx.violation('package-relative-resolution', 'search path %r (a package on disk, a package in a zip archive, a directory), name %r: '
+                                      'rendered %r, expected %r' % (order, nm, got, want), {'kind': 'pkg', 'name': nm, 'variant': 'mixed'})
+        finally:
+            del sys.path[:2]
+    finally:
+        shutil.rmtree(mixroot, ignore_errors=True)
     try:
         PageTemplateLoader(['chameleon:tests/inputs']).load('no-such-template.pt')
         ctx.violation('package-relative-resolution', 'a missing name in a package search path was loaded', {'kind': 'pkg'})
